@@ -202,7 +202,7 @@ func checkC13(cfg *core.Config) int {
 	})
 	return rep.Finish(core.Evidence{
 		Evaluations: rep.Counter("endpoints-compared"),
-		Rule:        "routeprogs (6-17 registrations each against an Echo stand-in: handlers as methods, functions, functions and methods of an imported package, function literals; paths as literals, local / package / imported constants and 2-3 part concatenations; bodies drawing subsets and orders of Bind, QueryParam (single and paired assignment), typed query helpers (methods and a generic function), FormValue, FormFile, FormValueJSON, JSON, JSONPretty, Blob) x prefix filters {none, half of a URL, a shared constant prefix, no match, filters ending with a slash next to routes sharing only the stem, the filter of one slash}: httpapi.ParseEcho's endpoint list is compared field by field with the synthesiser's route table. Distinct = distinct (handler form, path form, verb, contract shape).",
+		Rule:        "routeprogs (6-17 registrations each against an Echo stand-in: handlers as methods, functions, functions and methods of an imported package, function literals; paths as literals, local / package / imported constants and 2-3 part concatenations; bodies drawing subsets and orders of Bind, QueryParam (single and paired assignment), typed query helpers (methods and a generic function), FormValue, FormFile, FormValueJSON, JSON, JSONPretty, Blob; one handler in five with two success returns of different kinds - Blob in a branch and JSON at the end or the reverse - where either return is accepted as one (type, blob flag) pair) x prefix filters {none, half of a URL, a shared constant prefix, no match, filters ending with a slash next to routes sharing only the stem, the filter of one slash}: httpapi.ParseEcho's endpoint list is compared field by field with the synthesiser's route table. Distinct = distinct (handler form, path form, verb, contract shape).",
 		Assumptions: []string{"types are compared through Type().String()", "function literals may carry any Anonymous<digits> name"},
 		Extra:       map[string]any{"programs": len(progs), "features": pl.FeatureSummary()},
 	})
